@@ -108,12 +108,13 @@ func hexs(b []byte) string {
 func main() { vlib.Run("C03", run) }
 
 func run(c *vlib.Ctx) {
-	c.Rule("a case = one store (ValidatingBlockstore over datastore / over scripted hostile Blockstore; Filestore with std or mmap reader; URL reference) x CID form x payload, read back after each member of a corruption family; for lengths 0..48 the family is complete (every single-bit flip, every byte inversion, every truncation, extension by 1-3 bytes, shifts, removal, replacement); distinct = FNV of config+payload+family sizes; non-trivial = at least one corruption inside the hashed bytes/region was applied AND the monitor observed the read being refused for it AND an intact read succeeded before and after")
+	c.Rule("a case = one store (ValidatingBlockstore over datastore / over scripted hostile Blockstore, incl. requested CIDs that cannot be re-hashed (unregistered code, announced digest longer than the function's output); Filestore with std or mmap reader; URL reference) x CID form x payload, read back after each member of a corruption family; for lengths 0..48 the family is complete (every single-bit flip, every byte inversion, every truncation, extension by 1-3 bytes, shifts, removal, replacement); distinct = FNV of config+payload+family sizes; non-trivial = at least one corruption inside the hashed bytes/region was applied AND the monitor observed the read being refused for it AND an intact read succeeded before and after; every filestore block handed out is kept and re-verified after each of the following reads and at the end of the case")
 
 	nv := len(vbsForms) * (maxSmall + 1)
 	c.Cases("vbs-grid", nv, vbsGrid)
 	c.Cases("vbs-hostile", len(vbsForms)*4, vbsHostile)
 	c.Cases("vbs-large", c.N(48, 300), vbsLarge)
+	c.Cases("vbs-unhashable", c.N(160, 1600), vbsUnhashable)
 
 	// fs-grid: thorough = full product reader x form x layout x length; quick =
 	// every length x two layouts (whole file; region inside a file with a
@@ -352,6 +353,127 @@ func vbsLarge(k *vlib.Case) {
 	w.finish(ok1 && ok2)
 }
 
+// unhashable: multihash (code, digest length) pairs for which no hash of any
+// data can be computed, so no stored bytes can be shown to hash to the CID.
+type unhashable struct {
+	name   string
+	code   uint64
+	length int
+}
+
+var unhashables = []unhashable{
+	{"x11 (no registered hasher)", 0x1100, 64},
+	{"poseidon-bls12_381-a2-fc1 (no registered hasher)", 0xb401, 32},
+	{"sha2-256-trunc254-padded (no registered hasher)", 0x1012, 32},
+	{"md4 (no registered hasher)", 0xd4, 16},
+	{"sha2-256 announcing 40 digest bytes", mh.SHA2_256, 40},
+	{"sha2-256 announcing 33 digest bytes", mh.SHA2_256, 33},
+	{"sha2-512 announcing 65 digest bytes", mh.SHA2_512, 65},
+	{"sha1 announcing 21 digest bytes", mh.SHA1, 21},
+	{"sha3-256 announcing 48 digest bytes", mh.SHA3_256, 48},
+	{"blake2b-256 announcing 33 digest bytes", mh.BLAKE2B_MIN + 31, 33},
+	{"unregistered code drawn per case", 0, 32},
+}
+
+// vbsUnhashable: the requested CID cannot be re-hashed at all. The statement
+// allows a block to be returned only if its bytes hash to the requested CID, so
+// every read must be an error, whatever bytes the backing store holds
+// (including bytes whose real digest is a prefix of the announced one).
+func vbsUnhashable(k *vlib.Case) {
+	r := k.R
+	u := unhashables[k.Index%len(unhashables)]
+	if u.code == 0 {
+		for {
+			u.code = uint64(0x300000 + r.Intn(1<<20))
+			if _, ok := mh.Codes[u.code]; !ok {
+				break
+			}
+		}
+	}
+	ctx := context.Background()
+	n := []int{0, 1, 31, 32, 33, 48, 300}[r.Intn(7)]
+	data := r.Bytes(n)
+	// digest: random, or the real sha2-256/sha2-512 digest of the data cut/padded to the announced length
+	digest := r.Bytes(u.length)
+	look := "random"
+	if r.Bool() {
+		real, err := mh.Sum(data, mh.SHA2_512, -1)
+		must(err)
+		dec, _ := mh.Decode(real)
+		if r.Bool() {
+			real, err = mh.Sum(data, mh.SHA2_256, -1)
+			must(err)
+			dec, _ = mh.Decode(real)
+		}
+		digest = make([]byte, u.length)
+		copy(digest, dec.Digest)
+		look = "real digest of the data cut/zero-padded to the announced length"
+	}
+	h, _ := mh.Encode(digest, u.code)
+	codec := []uint64{cid.Raw, cid.DagProtobuf, cid.DagCBOR}[r.Intn(3)]
+	c := cid.NewCidV1(codec, h)
+	if _, err := c.Prefix().Sum(data); err == nil {
+		panic("harness: prefix of " + c.String() + " can be summed; not an unhashable form")
+	}
+	k.Logf("validating-blockstore, requested CID cannot be re-hashed: %s, code=0x%x announced length=%d digest=%s cid=%s", u.name, u.code, u.length, look, c)
+	base := ds.NewMapDatastore()
+	inner := bstore.NewBlockstore(base)
+	hostile := &hostileBS{Blockstore: inner}
+	stores := []struct {
+		name string
+		vbs  *bstore.ValidatingBlockstore
+	}{
+		{"datastore-backed", &bstore.ValidatingBlockstore{Blockstore: inner}},
+		{"scripted", &bstore.ValidatingBlockstore{Blockstore: hostile}},
+	}
+	var served, refused int64
+	payloads := [][]byte{data, {}, r.Bytes(max(n, 1)), append(append([]byte(nil), data...), 0)}
+	for _, p := range payloads {
+		blk, err := blocks.NewBlockWithCid(p, c)
+		must(err)
+		must(inner.Put(ctx, blk))
+		// the real datastore blockstore skips a Put for a key it already has
+		res, err := base.Query(ctx, dsq.Query{})
+		must(err)
+		ents, _ := res.Rest()
+		if len(ents) != 1 {
+			panic("expected exactly one backing entry")
+		}
+		must(base.Put(ctx, ds.RawKey(ents[0].Key), p))
+		hostile.answer = func(cid.Cid) (blocks.Block, error) { return blk, nil }
+		for _, st := range stores {
+			k.Logf("%s store holds %s under the multihash; Get", st.name, hexs(p))
+			got, err := st.vbs.Get(ctx, c)
+			switch {
+			case err != nil:
+				refused++
+			case got == nil:
+				k.Fail("vbs-nil-block/unhashable", "Get returns a block or an error", "error", "nil, nil")
+			default:
+				served++
+				k.Fail("vbs-accepts-unverifiable/"+st.name, "a block is returned only if its bytes hash to the requested CID",
+					fmt.Sprintf("error: no bytes can be shown to hash to %s (%s)", c, u.name), "nil error, block with bytes "+hexs(got.RawData()))
+			}
+		}
+	}
+	// control in the same stores: a CID that can be hashed is served
+	ctrl := r.Bytes(32)
+	cc := vbsForms[1].cidOf(ctrl)
+	cb, _ := blocks.NewBlockWithCid(ctrl, cc)
+	must(inner.Put(ctx, cb))
+	k.Logf("control: honest sha2-256 block %s in the same store", cc)
+	got, err := stores[0].vbs.Get(ctx, cc)
+	ctrlOK := err == nil && got != nil && rehashOK(cc, got.RawData())
+	if !ctrlOK {
+		k.Fail("vbs-honest-refused/unhashable-control", "intact stored block is returned", "block", fmt.Sprintf("err=%v", err))
+	}
+	k.C.Count("vbs_unhashable_reads", served+refused)
+	k.C.Count("vbs_unhashable_refusals", refused)
+	if ctrlOK && refused > 0 {
+		k.Nontrivial()
+	}
+}
+
 // hostileBS is a Blockstore whose Get answers are scripted by the harness
 // ("whatever the backing store holds").
 type hostileBS struct {
@@ -548,6 +670,63 @@ type fsWorld struct {
 	direct bool // read through FileManager.Get instead of Filestore.Get
 
 	inside, refused, intactReads, outside int64
+
+	held     []heldBlock // blocks handed out by earlier successful reads (the blocks themselves, not copies)
+	heldSeq  int64
+	heldMax  int64 // largest number of later reads a held block was re-verified across
+	reverifs int64
+}
+
+// heldBlock is a block a successful Get handed out, kept (not copied) together
+// with a private copy of what its bytes were when Get returned.
+type heldBlock struct {
+	blk   blocks.Block
+	req   cid.Cid
+	name  string
+	snap  []byte
+	seq   int64
+	first bool
+}
+
+const heldWindow = 6
+
+func (w *fsWorld) readerName() string {
+	if w.mmap {
+		return "mmap"
+	}
+	return "std"
+}
+
+// hold remembers a block that was just returned and verified.
+func (w *fsWorld) hold(name string, req cid.Cid, blk blocks.Block) {
+	h := heldBlock{blk: blk, req: req, name: name, snap: append([]byte(nil), blk.RawData()...), seq: w.heldSeq, first: len(w.held) == 0}
+	if len(w.held) >= heldWindow {
+		// keep the very first block of the case and the most recent ones
+		w.held = append(w.held[:1], w.held[2:]...)
+	}
+	w.held = append(w.held, h)
+}
+
+// checkHeld re-verifies, after a later read, every block handed out earlier: a
+// returned block must keep hashing to the CID it was returned for.
+func (w *fsWorld) checkHeld(after string) {
+	w.heldSeq++
+	kept := w.held[:0]
+	for _, h := range w.held {
+		w.reverifs++
+		if d := w.heldSeq - h.seq; d > w.heldMax {
+			w.heldMax = d
+		}
+		now := h.blk.RawData()
+		if bytes.Equal(now, h.snap) {
+			kept = append(kept, h)
+			continue
+		}
+		w.k.Fail("fs-returned-block-mutated/"+w.readerName(), "a block returned by Get keeps hashing to the requested CID",
+			fmt.Sprintf("block returned for %s (%s) still holds %s", h.name, h.req, hexs(h.snap)),
+			fmt.Sprintf("after %d later read(s) (last: %s) the same block holds %s; re-hash to its CID ok=%v", w.heldSeq-h.seq, after, hexs(now), rehashOK(h.req, now)))
+	}
+	w.held = kept
 }
 
 func newFsWorld(k *vlib.Case, mmapReader bool) *fsWorld {
@@ -617,6 +796,7 @@ func (w *fsWorld) checkRef(kind string, r *fref) {
 	} else {
 		blk, err = w.fs.Get(w.ctx, r.req)
 	}
+	w.checkHeld(kind + " read of " + r.name)
 	if intact {
 		w.intactReads++
 	} else {
@@ -639,6 +819,8 @@ func (w *fsWorld) checkRef(kind string, r *fref) {
 			k.Fail("fs-accepts-bad-bytes/"+kind, "returned bytes hash to the requested CID", fmt.Sprintf("corrupt-reference error for %s (file is %s, region now %s)", r.name, r.file.kind, region), "block with bytes "+hexs(blk.RawData()))
 		} else if !blk.Cid().Equals(r.req) {
 			k.Fail("fs-block-cid/"+kind, "returned block carries the requested CID", r.req.String(), blk.Cid().String())
+		} else {
+			w.hold(r.name, r.req, blk)
 		}
 		return
 	}
@@ -676,6 +858,9 @@ func (w *fsWorld) checkRef(kind string, r *fref) {
 
 func (w *fsWorld) finish() {
 	c := w.k.C
+	w.checkHeld("end of case")
+	c.Count("fs_held_block_reverifications", w.reverifs)
+	c.Max("max_later_reads_a_held_block_survived", w.heldMax)
 	c.Count("fs_corrupt_region_reads", w.inside)
 	c.Count("fs_refusals", w.refused)
 	c.Count("fs_intact_region_reads", w.intactReads)
@@ -1076,6 +1261,10 @@ func fsURL(k *vlib.Case) {
 		mustServe := s.honest
 		k.Logf("origin answers %s status=%d body=%s declared-length=%d", s.kind, s.status, hexs(delivered), s.declLen)
 		blk, err := w.fs.Get(w.ctx, c)
+		w.checkHeld("read while origin answers " + s.kind)
+		if err == nil && blk != nil && rehashOK(c, blk.RawData()) {
+			w.hold("url-ref", c, blk)
+		}
 		if good {
 			intact++
 		} else {
@@ -1103,6 +1292,8 @@ func fsURL(k *vlib.Case) {
 			break
 		}
 	}
+	w.checkHeld("end of case")
+	k.C.Count("fs_held_block_reverifications", w.reverifs)
 	k.C.Count("url_corrupt_reads", inside)
 	k.C.Count("url_refusals", refused)
 	k.C.Count("url_intact_reads", intact)
